@@ -1,4 +1,22 @@
 import Bermuda.Model.CodecJson
-open Bermuda
-/-- line-protocol driver of the codec model (shared by C05, C06 and C19) -/
-def main : IO Unit := serve Codec.handle
+open Lean Bermuda Bermuda.Codec
+
+/-- Line-protocol driver of the codec model for C19. Everything is `Codec.handle` (shared with C05 / C06);
+the answer to `prefixes` additionally says whether the case is an INSTANCE of the theorems
+`C19.decode_prefix_safe` / `decode_prefix_safe_py`: `wf cells`, `coherent cells`, and the file whose prefixes
+were read IS `encode cells` (resp. `encodePy cells`). -/
+def handle19 (j : Json) : Except String Json := do
+  let out ← Codec.handle j
+  match (← (← j.getObjVal? "op").getStr?) with
+  | "prefixes" =>
+    let fb ← hexFromJson (← j.getObjVal? "hex")
+    let cells ← rawCellsFromJson (← j.getObjVal? "cells")
+    let w := wf cells
+    let c := coherent cells
+    return out.mergeObj (Json.mkObj [
+      ("wf", Json.bool w), ("coherent", Json.bool c),
+      ("fileIsEncode", Json.bool (w && fb == encode cells)),
+      ("fileIsEncodePy", Json.bool (w && fb == encodePy cells))])
+  | _ => return out
+
+def main : IO Unit := serve handle19
